@@ -26,7 +26,9 @@ struct Tracked {
     Tracked() : key(0), idx(-1) { born(); }
     Tracked(int k, int i) : key(k), idx(i) { born(); }
     Tracked(const Tracked& o) : key(o.key), idx(o.idx) { o.use(); born(); }
-    Tracked(Tracked&& o) noexcept : key(o.key), idx(o.idx) { o.use(); born(); }
+    // moves really move: the source stays alive (it must still be destroyed) but its value is gone,
+    // like a moved-from std::string -- reading a moved-from slot as if it still held the value shows
+    Tracked(Tracked&& o) noexcept : key(o.key), idx(o.idx) { o.use(); born(); o.moved_from(); }
     Tracked& operator=(const Tracked& o) {
         use(); o.use();
         key = o.key; idx = o.idx; *heap = o.key;
@@ -35,8 +37,11 @@ struct Tracked {
     Tracked& operator=(Tracked&& o) noexcept {
         use(); o.use();
         key = o.key; idx = o.idx; *heap = o.key;
+        if (this != &o) o.moved_from();
         return *this;
     }
+    static constexpr int MOVED_FROM = -777;
+    void moved_from() { key = MOVED_FROM; idx = MOVED_FROM; if (heap) *heap = MOVED_FROM; }
     ~Tracked() {
         if (magic != ALIVE || id == 0 || TC_BASE + id >= RT_NCELLS || rt_cell_get(TC_BASE + id) != 1) {
             rt_cell_add(TC_ERR_DESTROY, 1);
